@@ -366,10 +366,13 @@ func run(c *mon.Ctx) {
 		}
 		gone := map[int]bool{}
 		// the caller appends to a descriptor list it was given: the other streams keep their descriptors
+		appended := false
 		descsOK := func(when string) bool {
-			for i, es := range m.ElementaryStreams() {
-				_ = append(es.Descriptors(), psi.NewPmtDescriptor(0xfe, []byte{1, 2, 3}), psi.NewPmtDescriptor(0xfd, nil))
-				_ = i
+			if when != "freshly decoded" {
+				for _, es := range m.ElementaryStreams() {
+					_ = append(es.Descriptors(), psi.NewPmtDescriptor(0xfe, []byte{1, 2, 3}), psi.NewPmtDescriptor(0xfd, nil))
+				}
+				appended = true
 			}
 			k := 0
 			for _, es := range m.ElementaryStreams() {
@@ -382,7 +385,14 @@ func run(c *mon.Ctx) {
 				want := uint64(uint32(w.Descs[0].Body[0]&0x1f)<<16|uint32(w.Descs[0].Body[1])<<8|uint32(w.Descs[0].Body[2])) * 400
 				if es.ElementaryPid() != w.PID || len(ds) != len(w.Descs) || ds[0].Tag() != 0x0e || es.MaxBitRate() != want ||
 					(len(w.Descs) > 1 && w.Descs[1].Tag == 0x0a && ds[1].DecodeIso639LanguageCode() != string(w.Descs[1].Body[:3])) {
-					c.Fail("decode:descriptors-changed-by-append", fmt.Sprintf("%s: after the caller appended to the descriptor lists it was given, stream %#x reports %d descriptors / bit rate %d (encoded: %d descriptors, bit rate %d)", when, w.PID, len(ds), es.MaxBitRate(), len(w.Descs), want),
+					if appended {
+						// the statement does not say that the slices handed out are independent of each other: what a
+						// caller's append into spare capacity does to a neighbouring list is counted, not reported
+						// (the first version of this check reported it; DESIGN section 7)
+						c.Count("descriptor_lists.share_spare_capacity")
+						return false
+					}
+					c.Fail("decode:descriptors", fmt.Sprintf("%s: stream %#x reports %d descriptors / bit rate %d (encoded: %d descriptors, bit rate %d)", when, w.PID, len(ds), es.MaxBitRate(), len(w.Descs), want),
 						wit{Case: "pmt descriptors " + when, Body: mon.Hex(pay)})
 					return false
 				}
